@@ -944,8 +944,8 @@ class Evaluator:
                 if lp is not None and rp is not None and (isinstance(l, str) or isinstance(r_, str) or _is_f(l) or _is_f(r_)) and not (isinstance(l, str) and isinstance(r_, str)):
                     return _fstring(lp + rp, e)
             if isinstance(e.op, ast.Add) and (isinstance(l, list) or isinstance(r_, list)) and not isinstance(l, (str, int, float)) and not isinstance(r_, (str, int, float)):
-                ll = l if isinstance(l, list) else [Sym("*" + vtext(l))]
-                rr = r_ if isinstance(r_, list) else [Sym("*" + vtext(r_))]
+                ll = l if isinstance(l, list) else [Sym("*" + _unlist(vtext(l)))]
+                rr = r_ if isinstance(r_, list) else [Sym("*" + _unlist(vtext(r_)))]
                 return ll + rr
             if (
                 isinstance(l, (int, float, str))
@@ -994,7 +994,7 @@ class Evaluator:
                 members = {k.value: None for k in e.elts}
             return Sym("set:" + self.closure_text(e, st), tag=("set", members, e))
         if isinstance(e, ast.Starred):
-            return Sym("*" + vtext(self.ev(e.value, st)))
+            return Sym("*" + _unlist(vtext(self.ev(e.value, st))))
         if isinstance(e, ast.Slice):
             parts = [vtext(self.ev(x, st)) if x is not None else "" for x in (e.lower, e.upper)]
             txt = ":".join(parts) + (":" + vtext(self.ev(e.step, st)) if e.step is not None else "")
@@ -1036,6 +1036,47 @@ class Evaluator:
                         c2_ = ast.Call(func=c.func, args=list(c.args) + take_, keywords=[])
                         ast.fix_missing_locations(ast.copy_location(c2_, c))
                         c = c2_
+        if isinstance(c.func, ast.Attribute) and c.func.attr == "format" and isinstance(c.func.value, ast.Constant) and isinstance(c.func.value.value, str) and not any(isinstance(a, ast.Starred) for a in c.args) and all(k.arg for k in c.keywords):
+            # "..{}..{name!s}..".format(a, name=b) is the f-string f"..{a}..{b!s}.."
+            import string as _string
+
+            try:
+                fields = list(_string.Formatter().parse(c.func.value.value))
+            except ValueError:
+                fields = None
+            if fields is not None and all((fn_ is None) or (re.fullmatch(r"\d*|[A-Za-z_]\w*", fn_) and not (spec_ or "").count("{")) for _, fn_, spec_, _ in fields):
+                vals_, auto_, ok_ = [], 0, True
+                kw_ = {k.arg: k.value for k in c.keywords}
+                for lit_, fn_, spec_, conv_ in fields:
+                    if lit_:
+                        vals_.append(ast.Constant(value=lit_))
+                    if fn_ is None:
+                        continue
+                    if fn_ == "":
+                        idx_ = auto_
+                        auto_ += 1
+                        src_ = c.args[idx_] if idx_ < len(c.args) else None
+                    elif fn_.isdigit():
+                        src_ = c.args[int(fn_)] if int(fn_) < len(c.args) else None
+                    else:
+                        src_ = kw_.get(fn_)
+                    if src_ is None:
+                        ok_ = False
+                        break
+                    vals_.append(ast.FormattedValue(value=src_, conversion=ord(conv_) if conv_ else -1, format_spec=ast.JoinedStr(values=[ast.Constant(value=spec_)]) if spec_ else None))
+                if ok_:
+                    js_ = ast.JoinedStr(values=vals_)
+                    ast.fix_missing_locations(ast.copy_location(js_, c))
+                    return self.ev(js_, st)
+        if isinstance(c.func, ast.Name) and c.func.id == "map" and len(c.args) == 2 and not c.keywords and isinstance(c.args[0], (ast.Name, ast.Attribute)) and "map" not in st.env:
+            # map(f, xs) visits f(x) for x in xs
+            lc_ = ast.ListComp(elt=ast.Call(func=c.args[0], args=[ast.Name(id="_m0", ctx=ast.Load())], keywords=[]), generators=[ast.comprehension(target=ast.Name(id="_m0", ctx=ast.Store()), iter=c.args[1], ifs=[], is_async=0)])
+            ast.fix_missing_locations(ast.copy_location(lc_, c))
+            return self.ev(lc_, st)
+        if isinstance(c.func, ast.Attribute) and c.func.attr == "islice" and len(c.args) == 3 and not c.keywords and isinstance(c.args[1], ast.Constant) and c.args[1].value == 0:
+            # islice(x, 0, n) is islice(x, n)
+            c = ast.Call(func=c.func, args=[c.args[0], c.args[2]], keywords=[])
+            ast.fix_missing_locations(c)
         if isinstance(c.func, ast.Attribute) and c.func.attr == "join" and len(c.args) == 1 and not c.keywords and isinstance(c.args[0], ast.GeneratorExp):
             # sep.join(genexp) is sep.join([listcomp])
             lc_ = ast.ListComp(elt=c.args[0].elt, generators=c.args[0].generators)
@@ -1115,8 +1156,19 @@ class Evaluator:
         if ftext in ("any", "all") and len(c.args) == 1 and not kwargs and isinstance(c.args[0], (ast.GeneratorExp, ast.ListComp)):
             g = c.args[0]
             g0 = g.generators[0]
-            if (len(g.generators) == 1 and not g0.ifs and isinstance(g0.target, ast.Name) and isinstance(g0.iter, (ast.Tuple, ast.List, ast.Set))
-                    and 1 <= len(g0.iter.elts) <= 8 and all(isinstance(e, ast.Constant) for e in g0.iter.elts)):
+            it0_ = g0.iter
+            if isinstance(it0_, ast.Name):
+                # a display of constants bound to a local or to a module-level constant
+                v0_ = st.env.get(it0_.id, NOTHING)
+                if v0_ is NOTHING:
+                    mc0_ = _module_constant(self.fi, it0_.id)
+                    if isinstance(mc0_, (ast.List, ast.Tuple, ast.Set)):
+                        it0_ = mc0_
+                elif isinstance(v0_, (list, tuple)) and v0_ and all(isinstance(x, (str, int, float)) or x is None for x in v0_):
+                    it0_ = ast.Tuple(elts=[ast.Constant(value=x) for x in v0_], ctx=ast.Load())
+            if (len(g.generators) == 1 and not g0.ifs and isinstance(g0.target, ast.Name) and isinstance(it0_, (ast.Tuple, ast.List, ast.Set))
+                    and 1 <= len(it0_.elts) <= 8 and all(isinstance(e, ast.Constant) for e in it0_.elts)):
+                g0 = ast.comprehension(target=g0.target, iter=it0_, ifs=[], is_async=0)
                 # any(P(x) for x in (a, b)) over a literal display is P(a) or P(b); all(...) is P(a) and P(b)
                 vals = []
                 for e in g0.iter.elts:
@@ -1567,6 +1619,21 @@ def _is_class_name(name, fi):
         if any(name in m.classes for m in repo.modules.values()):
             return True
     return bool(re.fullmatch(r"[A-Z][A-Za-z0-9]*[a-z][A-Za-z0-9]*", name)) and name not in ("None", "True", "False")
+
+
+def _unlist(t):
+    """the elements of list(X) / tuple(X) are the elements of X (`list(xs) + [y]` is `[*xs, y]`)"""
+    m = re.fullmatch(r"(?:list|tuple)\((.*)\)", t)
+    if m:
+        depth = 0
+        for ch in m.group(1):
+            depth += ch in "([{"
+            depth -= ch in ")]}"
+            if depth < 0:
+                return t
+        if depth == 0 and "," not in re.sub(r"\([^()]*\)|\[[^\[\]]*\]", "", m.group(1)):
+            return m.group(1)
+    return t
 
 
 _REORD: dict = {}
